@@ -76,15 +76,23 @@ def run(tier, build_dir, name="xsim"):
                 found = C.find_fn_with_context(text_src, fname)
                 if len(found) == 1:
                     ftext, header = found[0]
-                    extra.append("// helper `%s` cut from %s (introduced in /repo after the stand-in was written)\n%s" % (
-                        fname, rel, ("%s {\n%s\n}" % (header, ftext)) if header else ftext))
+                    extra.append((rel, "// helper `%s` cut from %s (introduced in /repo after the stand-in was written)\n%s" % (
+                        fname, rel, ("%s {\n%s\n}" % (header, ftext)) if header else ftext)))
                     added.append(fname)
                     break
         if not extra:
             break
         text = open(src).read()
-        marker = "// ------------------------------------------------------------------ hierarchies"
-        text += "\n" + "\n".join(extra) + "\n"
+        # a helper goes where the template says helpers of its source file belong (`//@helpers src=<file>`, inside the right
+        # module), otherwise at the end of the unit
+        rest = []
+        for rel, htext in extra:
+            mk = "//@helpers src=%s" % rel
+            if mk in text:
+                text = text.replace(mk, htext + "\n" + mk, 1)
+            else:
+                rest.append(htext)
+        text += "\n" + "\n".join(rest) + "\n"
         open(src, "w").write(text)
         p = subprocess.run(["rustc", "--edition", "2021", "-O", "-A", "warnings"] + externs + [src, "-o", binp], capture_output=True, text=True, timeout=600)
     out["helpers_added"] = added
